@@ -273,9 +273,13 @@ def run_single(case, res):
             f1, e1 = with_horizon(gen_once, [[x + a, y + b] for x, y in lot], spacing, rot)
             res["evals"] += 1
             if e0 is None and e1 is None:
-                p0 = sorted((round(x + a, 5), round(y + b, 5)) for x, y in np.asarray(f0).reshape(-1, 2))
-                p1 = sorted((round(x, 5), round(y, 5)) for x, y in np.asarray(f1).reshape(-1, 2))
-                same = len(p0) == len(p1) and all(abs(u[0] - w[0]) < 1e-4 and abs(u[1] - w[1]) < 1e-4 for u, w in zip(p0, p1))
+                p0 = np.asarray(f0, dtype=float).reshape(-1, 2) + np.array([a, b])
+                p1 = np.asarray(f1, dtype=float).reshape(-1, 2)
+                same = len(p0) == len(p1)
+                if same and len(p0):
+                    # one-to-one matching of the two point sets within 1e-4 m (a sort-and-zip comparison is fooled by round-off ties)
+                    d, idx = cKDTree(p1).query(p0, k=1)
+                    same = bool(np.all(d < 1e-4)) and len(set(idx.tolist())) == len(p0)
                 if not same:
                     res["violations"].append(core.viol("translation_changes_field", dict(case, rots=[rot]), observed=[len(p0), len(p1)],
                                                        msg=f"lot {lot} at rotation {rot}: {len(p0)} boreholes, translated by ({a},{b}): {len(p1)} boreholes / different positions",
